@@ -371,8 +371,8 @@ Inductive errkind := ErrEncoding | ErrDecompress.
 
 (* calls observed at the recording processor / sink *)
 Inductive oev :=
-| PHeader (d : dir) (es : bool)        (* processor shown Header, fields unchanged *)
-| SHeader (d : dir) (es : bool)        (* sink received Header, fields unchanged *)
+| PHeader (d : dir) (hs : list hfield) (es : bool)   (* processor shown Header(hs, es) *)
+| SHeader (d : dir) (hs : list hfield) (es : bool)   (* sink received Header(hs, es) *)
 | PMsg (d : dir) (data : option bytes) (es : bool)
 | SData (d : dir) (data : bytes) (es : bool)
 | OErr (k : errkind).
@@ -434,6 +434,40 @@ Fixpoint select_enc (cur : enc) (hs : list hfield) : option enc :=
       else select_enc cur hs'
   end.
 
+(* The rules the oracle pins, written out by hand and independent of the
+   regenerated Gen_GrpcEnc.v: a stream is gRPC iff some HEADERS field is
+   content-type: application/grpc (exactly), and grpc-encoding values name
+   the codecs of the gRPC specification.  Proofs.v shows the regenerated
+   tables compute exactly these. *)
+Definition std_is_grpc (hs : list hfield) : bool :=
+  existsb (fun h => bytes_eqb (fst h) (list_ascii_of_string "content-type"%string) &&
+                    bytes_eqb (snd h) (list_ascii_of_string "application/grpc"%string)) hs.
+
+Definition std_enc_of_name (v : bytes) : option enc :=
+  if bytes_eqb v (list_ascii_of_string "identity"%string) then Some Identity
+  else if bytes_eqb v (list_ascii_of_string "gzip"%string) then Some Gzip
+  else if bytes_eqb v (list_ascii_of_string "deflate"%string) then Some Deflate
+  else if bytes_eqb v (list_ascii_of_string "snappy"%string) then Some Snappy
+  else None.
+
+(* the last grpc-encoding value a header list announces, if any *)
+Fixpoint announced (cur : option bytes) (hs : list hfield) : option bytes :=
+  match hs with
+  | [] => cur
+  | h :: hs' =>
+      if bytes_eqb (fst h) (list_ascii_of_string "grpc-encoding"%string)
+      then announced (Some (snd h)) hs' else announced cur hs'
+  end.
+
+(* oracle for a stream that is not gRPC: the processor is shown nothing and
+   the sink receives exactly the DATA frames that were sent *)
+Definition frame_eqb (a b : bytes * bool) : bool :=
+  bytes_eqb (fst a) (fst b) && Bool.eqb (snd a) (snd b).
+
+Definition untouched_ok (frames : list (bytes * bool))
+           (calls : list (option bytes * bool)) (datas : list (bytes * bool)) : bool :=
+  is_nil calls && list_eqb frame_eqb datas frames.
+
 Definition get_enc (d : dir) (p : pair) : enc := match d with CtoS => encC p | StoC => encS p end.
 Definition get_ad (d : dir) (p : pair) : st := match d with CtoS => adC p | StoC => adS p end.
 Definition set_enc (d : dir) (e : enc) (p : pair) : pair :=
@@ -459,9 +493,9 @@ Definition op_step (v : variant) (p : pair) (o : op) : option (pair * list oev *
       if enabled p1 then
         match select_enc (get_enc d p1) hs with
         | None => Some (p1, [OErr ErrEncoding], false)
-        | Some e => Some (set_enc d e p1, [PHeader d es; SHeader d es], true)
+        | Some e => Some (set_enc d e p1, [PHeader d hs es; SHeader d hs es], true)
         end
-      else Some (p1, [SHeader d es], true)
+      else Some (p1, [SHeader d hs es], true)
   | OpData d data es =>
       if enabled p then
         match adapter_data v (get_enc d p) (get_ad d p) data es with
